@@ -410,6 +410,42 @@ def rule_wiring(chk):
             fail="ActionType's start hooks are not start_action / startTask")
 
 
+def rule_serializer_flow(chk):
+    """The serializers given to start_action/startTask/continue_task/child reach the
+    action object unchanged (a typed action must not silently become untyped)."""
+    ctx = chk.ctx
+    init = ctx.func("_action", "Action.__init__")
+    child = ctx.func("_action", "Action.child")
+    ip = [a.arg for a in init.node.args.args]
+    oki = any(isinstance(n, ast.Assign) and common.is_self_attr(n.targets[0], "_serializers") and isinstance(n.value, ast.Name) and n.value.id == ip[5]
+              for n in iter_own_nodes(init.node)) and not stores_to_name(init, ip[5])
+    chk.req(oki, "C13.attach", "Action.__init__:keeps-the-given-serializers", chk.where(init), good="self._serializers = serializers", fail="Action.__init__ does not keep the serializers it is given")
+
+    def ctor_passes(f, pname, what):
+        ok = False
+        for n in iter_own_nodes(f.node):
+            if isinstance(n, ast.Call) and init in ctx.targets(f, n) and len(n.args) >= 5:
+                ok = isinstance(n.args[4], ast.Name) and n.args[4].id == pname and not stores_to_name(f, pname)
+        chk.req(ok, "C13.attach", "%s:passes-serializers-to-the-action" % f.qualname, chk.where(f), good="%s handed to Action(...)" % pname,
+                fail="%s constructs the action without the serializers it was given (%s): typed fields are neither serialized nor validated" % (f.qualname, what))
+    ctor_passes(ctx.func("_action", "startTask"), "_serializers", "start_task / ActionType.as_task")
+    ctor_passes(ctx.func("_action", "Action.continue_task"), "_serializers", "continue_task")
+    ctor_passes(child, [a.arg for a in child.node.args.args][3], "every nested action")
+    sa = ctx.func("_action", "start_action")
+    ok = False
+    for n in iter_own_nodes(sa.node):
+        if isinstance(n, ast.Call) and child in ctx.targets(sa, n):
+            ok = len(n.args) == 3 and [getattr(a, "id", None) for a in n.args] == sa.params[:3] and not any(stores_to_name(sa, q) for q in sa.params[:3])
+    chk.req(ok, "C13.attach", "start_action:nested-action-gets-logger-type-serializers", chk.where(sa), good="parent.child(logger, action_type, _serializers)",
+            fail="a nested action is created without the logger/type/serializers given to start_action: typed actions started inside another action are not serialized or validated")
+    st = ctx.func("_action", "startTask")
+    ok2 = False
+    for n in iter_own_nodes(sa.node):
+        if isinstance(n, ast.Call) and st in ctx.targets(sa, n):
+            ok2 = [getattr(a, "id", None) for a in n.args] == sa.params[:3] and any(k.arg is None for k in n.keywords)
+    chk.req(ok2, "C13.attach", "start_action:task-arm-passes-everything", chk.where(sa), good="startTask(logger, action_type, _serializers, **fields)", fail="the no-parent arm of start_action drops an argument")
+
+
 def rule_field_guard(chk):
     """Justifies the receiver-type convention `field -> Field` (sa/callgraph.py)."""
     ctx = chk.ctx
@@ -428,4 +464,5 @@ def run(chk):
     rule_fail(chk)
     rule_attach(chk)
     rule_wiring(chk)
+    rule_serializer_flow(chk)
     rule_field_guard(chk)
